@@ -38,7 +38,11 @@ static const i128 GUARD = ((i128)1) << 100;
 inline bool eval_exp(const LinExp &e, const CState &s, i128 &out) {
   i128 r = e.cst;
   for (auto &t : e.terms) {
-    i128 x = (i128)t.first * s.v[t.second];
+    i128 val = s.v[t.second];
+    if (val > (GUARD >> 40) || val < -(GUARD >> 40)) { // |coef| <= 2^62 ... keep the product far from 2^127
+      if (t.first > 1024 || t.first < -1024) return false;
+    }
+    i128 x = (i128)t.first * val;
     r += x;
     if (r >= GUARD || r <= -GUARD) return false;
   }
